@@ -83,7 +83,8 @@ def effective_sleep(cfg, spec):
 
 
 def gen_session(rng, focus: str, tier: str = "quick"):
-    cfg = gen_config(rng, allow_uri_append=(rng.random() < 0.06), allow_static_param=(rng.random() < 0.25))
+    cfg = gen_config(rng, allow_uri_append=(rng.random() < (0.25 if focus == "C07" else 0.08)),
+                     allow_static_param=(rng.random() < 0.25))
     nclients = rng.choice([1, 1, 1, 2, 3])
     clients = [gen_client(rng, k, cfg, focus) for k in range(nclients)]
     # distinct beacon ids per run (one decoder session per beacon)
